@@ -7,9 +7,15 @@ Families (every case: random rooted tree with multi-basis and dummy nodes, 1- or
 real-symmetric label-conserving Hamiltonian with offsets / duplicate terms / 3-body terms):
   exact    complete bonds, interacting H: all four schemes, real and imaginary time, multi-step
            histories with changing step and scheme, normalize on/off, coeff != 1, complex inputs.
-           TDVP schemes are exact up to the local solver tolerance when every bond is complete
-           (all local problems are unitary images of the full problem); P&C must equal the order-4
-           Taylor polynomial of the propagator and obey the Taylor remainder bound.
+           VMF is exact up to the integrator tolerance (the manifold is the whole sector).  The
+           projector-splitting schemes are exact up to the local solver tolerance when, at every
+           bond, one side carries a complete basis (then the backward bond step cancels one of the
+           neighbouring forward steps exactly); that is guaranteed for label-free models (all
+           sigmaqn = 0, half of the cases).  With non-trivial labels the QR inside the sweep shrinks
+           a bond block by block, "complete side" may differ between blocks, and the scheme is only
+           second order (measured: error 3e-5 -> 8e-6 -> 2e-6 over halvings on a 3-node chain): there
+           an error above the solver tolerance triggers the order test (two halvings, slope >= 1.5).
+           P&C must equal the order-4 Taylor polynomial of the propagator and obey its remainder bound.
   cluster  H = sum of cluster-local parts (clusters = connected node sets); bonds BETWEEN clusters
            truncated to any dimension >= 1 (incl. product states), bonds inside complete.  The exact
            solution stays in the manifold, H psi lies in the tangent space, so VMF and both
@@ -152,6 +158,30 @@ def _hist_json(hist):
     return [dict(method=NAME[m], tau=[float(np.real(t)), float(np.imag(t))], normalize=bool(nz)) for (m, t, nz) in hist]
 
 
+def _ps_order_check(cx, key, ttno, h, t_in, method, tau, hn, err1, rep):
+    """non-trivial labels: projector splitting is second order, not exact.  Halve the step twice."""
+    run = cx.run
+    if hn > 0.7:
+        run.count("ps-order:step-too-large-for-slope")
+        return
+    psi0 = L.dense_ttns(t_in)
+    ref = L.expm_apply(h, psi0, tau)
+    errs = []
+    for n in (1, 2, 4):
+        tt = t_in.copy()
+        for _ in range(n):
+            _cfg(tt, method)
+            tt = tt.evolve(ttno, tau / n, normalize=False)
+            cx.n += 1
+        errs.append(float(np.linalg.norm(L.dense_ttns(tt) - ref) / np.linalg.norm(ref)))
+    run.count("ps-order:judged")
+    floor = 5e-7
+    orders = [float(np.log2(errs[i] / errs[i + 1])) if errs[i + 1] > 0 else 99.0 for i in range(2)]
+    bad = (errs[1] > floor and orders[0] < 1.5) or (errs[2] > floor and orders[1] < 1.5) or errs[0] > 2.0 * hn ** 3 + 1e-6
+    if bad:
+        run.violation(f"evolve:{key}:not-second-order", rep(errors=errs, orders=orders, hnorm_dt=float(hn)))
+
+
 def _evolve_checked(cx, fam, spec, ttno, h, lab, q, t, method, tau, normalize, tol, state0, hist, tight=True,
                     poly=True, tol_override=None):
     """one evolve call on the real code + all per-call oracles. returns the new TTNS or None"""
@@ -161,6 +191,8 @@ def _evolve_checked(cx, fam, spec, ttno, h, lab, q, t, method, tau, normalize, t
     run.count("call:" + key)
     cx.n += 1
     _cfg(t, method, tight)
+    ps_order = not spec.get("trivial_qn", False) and fam != "cluster"
+    t_in = t.copy() if (ps_order and method in (PS, PS2) and tol is not None) else None
     snap = L.snapshot(t)
     psi0 = L.dense_ttns(t)
     c0 = complex(t.coeff)
@@ -172,7 +204,9 @@ def _evolve_checked(cx, fam, spec, ttno, h, lab, q, t, method, tau, normalize, t
         run.violation(sig, rep(error=repr(e)[:300]))
         # after one of the three understood crashes the history goes on from the (possibly in-place
         # evolved, D6) input; anything else ends the case
-        return t if sig in KNOWN_CRASHES else None
+        if sig == KNOWN_CRASHES[0] or (sig in KNOWN_CRASHES and not imag):
+            return t
+        return None
     # ---- alias (C13)
     same = new is t
     d = L.snapshot_diff(t, snap)
@@ -214,7 +248,10 @@ def _evolve_checked(cx, fam, spec, ttno, h, lab, q, t, method, tau, normalize, t
         else:
             thr = tol_override if tol_override is not None else tol[method]
             if err > thr:
-                run.violation(f"evolve:{key}:vs-expm", rep(rel_err=err, tol=thr, hnorm_dt=float(hn), normalize=bool(normalize)))
+                if method in (PS, PS2) and ps_order and t_in is not None:
+                    _ps_order_check(cx, key, ttno, h, t_in, method, tau, hn, err, rep)
+                else:
+                    run.violation(f"evolve:{key}:vs-expm", rep(rel_err=err, tol=thr, hnorm_dt=float(hn), normalize=bool(normalize)))
     # ---- sector & labels
     m = np.all(lab == np.asarray(q), axis=1)
     leak = float(np.linalg.norm(got[~m]) / max(np.linalg.norm(got), 1e-300)) if (~m).any() else 0.0
@@ -229,7 +266,7 @@ def _evolve_checked(cx, fam, spec, ttno, h, lab, q, t, method, tau, normalize, t
 # ------------------------------------------------------------------------------------ families
 def fam_exact(cx):
     rng, run = cx.rng, cx.run
-    spec = L.gen_spec(rng, cx.quick, max_dim=120 if cx.quick else 200)
+    spec = L.gen_spec(rng, cx.quick, max_dim=120 if cx.quick else 200, trivial_qn=bool(rng.random() < 0.5))
     tree, bs, ttno, h, lab = _build(spec)
     q, cond = L.pick_sector(rng, spec)
     seed = int(rng.integers(1 << 30))
@@ -265,10 +302,11 @@ def fam_exact(cx):
 
 def fam_cluster(cx):
     rng, run = cx.rng, cx.run
-    spec = L.gen_spec(rng, cx.quick, max_dim=120 if cx.quick else 200)
+    spec = L.gen_spec(rng, cx.quick, max_dim=120 if cx.quick else 200, trivial_qn=bool(rng.random() < 0.5))
     nn = len(spec["nodes"])
-    # cut a random subset of edges (edge i = node i -> its parent), at least one
-    cut = [i for i in range(1, nn) if rng.random() < 0.6]
+    # cut a random subset of edges (edge i = node i -> its parent), at least one.  With non-trivial
+    # labels every edge is cut (node-local H): "complete inside a cluster" is block dependent there
+    cut = [i for i in range(1, nn) if (rng.random() < 0.6 or not spec["trivial_qn"])]
     if not cut:
         cut = [int(rng.integers(1, nn))]
     cluster_of = {}
@@ -433,7 +471,7 @@ def fam_chain(cx):
     rng, run = cx.rng, cx.run
     spec = None
     for _ in range(20):
-        s = L.gen_spec(rng, cx.quick, max_dim=64, family="linear")
+        s = L.gen_spec(rng, cx.quick, max_dim=64, family="linear", trivial_qn=bool(rng.random() < 0.5))
         if all(len(n["sets"]) == 1 for n in s["nodes"]) and len(s["nodes"]) >= 2:
             spec = s
             break
@@ -478,6 +516,10 @@ def fam_chain(cx):
         return
     hn = np.linalg.norm(h, 2)
     method, normalize = _pick(rng, spec, METHODS[int(rng.integers(4))])
+    if not spec["trivial_qn"] and method in (PS, PS2):
+        # with labels projector splitting is second order only and the two implementations sweep in
+        # opposite directions: no statement to compare
+        method = VMF if rng.random() < 0.5 else PC
     imag = bool(rng.random() < 0.5)
     tau = _tau(rng, hn, imag, 0.05, 1.5 if method is not PC else 0.6)
     key = f"chain:{NAME[method]}:{'imag' if imag else 'real'}"
@@ -513,6 +555,13 @@ def fam_chain(cx):
         return
     e_m = float(np.linalg.norm(got_m - ref) / np.linalg.norm(ref))
     tol_m = 1e-2 if method is PC else (2e-4 if method is VMF else tol)
+    if method is PC:
+        pol = _tay4(h, psi0, tau)
+        pol = pol / np.linalg.norm(pol) if normalize else pol
+        if np.linalg.norm(got_m - pol) / np.linalg.norm(pol) > 1e-8:
+            e_m = np.inf
+        if np.linalg.norm(got_t - pol) / np.linalg.norm(pol) > TOL_POLY:
+            run.violation(f"evolve:{key}:not-taylor4", dict(rep, rel_err_vs_polynomial=float(np.linalg.norm(got_t - pol) / np.linalg.norm(pol))))
     if e_m > tol_m:
         run.count(f"chain-side-inaccurate:{NAME[method]}")
         return
@@ -528,7 +577,8 @@ def fam_aux(cx):
     """P+Q tree state, operator on the P tree"""
     rng, run = cx.rng, cx.run
     # (BasisMultiElectron cannot be copied by add_auxiliary_space: not generated here)
-    spec = L.gen_spec(rng, cx.quick, max_dim=12 if cx.quick else 16, kinds=["spin", "spin", "elec", "sho", "spin0"])
+    spec = L.gen_spec(rng, cx.quick, max_dim=12 if cx.quick else 16, kinds=["spin", "spin", "elec", "sho", "spin0"],
+                      trivial_qn=bool(rng.random() < 0.5))
     tree, bs = L.make_tree(spec)
     tree2 = tree.add_auxiliary_space()
     ttno = TTNO(tree, L.make_ops(spec))
